@@ -447,7 +447,10 @@ def extract(api: str, result, n_extra_cols: int, names=None):
         df, comments = result
         cols = {k: df[k].to_numpy().tolist() for k in ["id", "type", "x", "y", "z", "r", "pid"]}
         for k in range(n_extra_cols):
-            cols[f"e{k}"] = df[names[k] if names else f"e{k}"].to_numpy().tolist()
+            nm = names[k] if names else f"e{k}"
+            cols[f"e{k}"] = df[nm].to_numpy().tolist() if nm in df.columns else [float("nan")] * len(df)
+            if nm not in df.columns:
+                cols.setdefault("_missing", []).append(nm)
         lens = {len(df[c]) for c in df.columns}
         return cols, list(comments), lens
     tree = result
@@ -488,6 +491,8 @@ def judge(step, verdict, outcome, n_extra_cols, warns) -> dict | None:
             return None
         return {"tag": "rejected_wellformed", "op": api, "detail": f"{outcome[1]}: {outcome[2][:200]}"}
     cols, comments, lens = extract(api, outcome[1], n_extra_cols, step["opts"].get("extra_cols"))
+    if cols.get("_missing"):
+        return {"tag": "column_missing", "op": api, "detail": f"requested column(s) {cols['_missing']} are not in the table"}
     if len(lens) != 1:
         return {"tag": "ragged_table", "op": api, "detail": f"column lengths {sorted(lens)}"}
     n = len(cols["id"])
